@@ -272,10 +272,10 @@ func (cs *chainSet) realise(lists [][]mtx, firstAcct int, baseFee *big.Int, fp *
 			tip := new(big.Int).Mul(big.NewInt(m.Tip), big.NewInt(params.GWei))
 			feeCap := new(big.Int).Add(baseFee, tip)
 			n := nonce
-			value := big.NewInt(1)
+			value := big.NewInt(int64(m.ID)) // unique per abstract transaction: no two signed transactions coincide
 			to := sink
 			if m.Used == m.Gas && m.Gas > 21000 && !blob {
-				to, value = k.C.Burner, big.NewInt(0)
+				to = k.C.Burner
 			}
 			switch m.Cls {
 			case "ok", "evicted":
@@ -301,6 +301,11 @@ func (cs *chainSet) realise(lists [][]mtx, firstAcct int, baseFee *big.Int, fp *
 				txd = &types.DynamicFeeTx{ChainID: k.Config.ChainID, Nonce: n, GasTipCap: tip, GasFeeCap: feeCap, Gas: uint64(m.Gas), To: &to, Value: value}
 			}
 			tx := types.MustSignNewTx(key, k.Signer, txd)
+			for _, o := range all {
+				if o.hash == tx.Hash() {
+					tl.Fatal("harness bug: abstract transactions %d and %d were realised as the same signed transaction", o.m.ID, m.ID)
+				}
+			}
 			rt := &realTx{m: m, tx: tx, hash: tx.Hash(), acct: acct}
 			lt := &txpool.LazyTransaction{Pool: fp, Hash: tx.Hash(), Tx: tx, Time: time.Unix(1_000_000, 0).Add(time.Duration(m.Time) * time.Millisecond),
 				GasFeeCap: uint256.MustFromBig(feeCap), GasTipCap: uint256.MustFromBig(tip), Gas: uint64(m.Gas), BlobGas: uint64(m.Blobs) * params.BlobTxBlobGasPerBlob}
